@@ -476,7 +476,8 @@ async fn one_case(run: &mut Run, rng: &mut Rng, enc: &mut Enc, case_no: u64, pro
                 steps.push(do_client(&mut w, enc, run, now, &pkt, reg, &plan).await);
             }
             1 => {
-                now += 15;
+                // the 15 ms timer is independent of threshold flushes: a tick may come right after one
+                now += *rng.pick(&[0u64, 1, 3, 7, 14, 15, 15, 16]);
                 let mut plan = vec![];
                 for j in 0..n { if w.qlens()[j] > 0 && rng.chance(p_fault, 100) { plan.push((j, random_script(rng))); } }
                 steps.push(do_flush(&mut w, enc, run, now, &plan).await);
@@ -530,7 +531,7 @@ pub fn run(seed: u64, tier: &str, out: &Path, _extra: &[(String, String)]) -> st
     let mut run = Run::new("C01", "Run_C01", seed, tier, out);
     let mut rng = Rng::new(seed ^ 0xC01);
     let rt = tokio::runtime::Builder::new_current_thread().enable_all().build()?;
-    let n_cases: u64 = if run.thorough() { 2000 } else { 200 };
+    let n_cases: u64 = if run.thorough() { 1500 } else { 140 };
     let mut enc = Enc { full: HashSet::new(), full_budget: if run.thorough() { 600 } else { 40 } };
     let res: std::io::Result<()> = rt.block_on(async {
         for k in 0..n_cases {
